@@ -33,48 +33,7 @@ theorem drained_done {s : St} (i : Inv4 s) (d : Drained s) : s.done = true := by
   | true => rfl
   | false =>
     exfalso
-    -- replay the case analysis of `closing_progress` from the invariant
-    have key : Progress s ∨ (s.reader = .read ∧ s.closerUsed = true) := by
-      by_cases hidle : s.idle = true
-      · have ht := i.ti (by simpa [fview, FV.idle, St.idle] using hidle)
-          (by simpa [fview, FV.shuttingDown, St.shuttingDown] using d.shutting)
-        have hcu : s.closerUsed = true := ht.1
-        have hrd : s.reading = true := by
-          rcases ht.2 with h' | h'
-          · exact h'
-          · simp [fview, hd] at h'
-        have hact := i.base.base.base.flags.rd
-        simp only [fview, hrd] at hact
-        cases hr : s.reader with
-        | start => simp [hr, ReaderPc.active] at hact
-        | gone => simp [hr, ReaderPc.active] at hact
-        | read => exact Or.inr ⟨rfl, hcu⟩
-        | rr id p => exact Or.inl (enabled_of .rresp rfl (by simp [step0, hr]))
-        | rx => exact Or.inl (enabled_of .rx rfl (by simp [step0, hr]))
-        | busy =>
-          obtain ⟨k, hk, hp⟩ := i.rb (by simp [reqView, hr])
-          have hk' : s.cores[s.cores.length - 1]? = some k := hk
-          refine Or.inl (core_progress hk' ?_)
-          rcases hp with hp | hp | ⟨_, hp⟩
-          · simp [hp]
-          · simp [hp]
-          · exact inPR_cases hp
-      · left
-        simp only [St.idle, Bool.and_eq_true, Bool.not_eq_true', not_and, beq_iff_eq, List.isEmpty_iff] at hidle
-        by_cases h1 : s.outCalls = []
-        · by_cases h2 : s.outNotifs = 0
-          · by_cases h3 : s.incoming = 0
-            · have h4 : s.handlerRunning = true := by
-                cases hh : s.handlerRunning
-                · exact absurd hh (hidle ⟨⟨h1, h2⟩, h3⟩)
-                · rfl
-              have := i.base.base.disp.hr
-              simp only [dview, h4] at this
-              exact disp_progress i (fun hn => by simp [hn] at this)
-            · exact incoming_progress i h3
-          · exact notif_progress i h2
-        · obtain ⟨n, hn⟩ := List.exists_mem_of_ne_nil _ h1
-          exact call_progress i hn
+    have key := progress_of_inv4 i d.shutting hd
     rcases key with (h | h | h | h) | ⟨h, _⟩
     · exact d.quiet h
     · exact d.handlers h
